@@ -392,6 +392,123 @@ pub fn run_adversarial(cfg: &Value) -> Value {
     json!({"members": infos, "verify": verify_out})
 }
 
+/// statements of unusual shape pushed through the validating constructor (C16/C17): cfg: n, x, cap, commitments, promises, seeded.
+/// If the constructor accepts, a well-formed adversarial proof is verified against it in every mode.
+pub fn run_odd_statement(cfg: &Value) -> Value {
+    let n = cfg["n"].as_u64().unwrap() as usize;
+    let x = cfg["x"].as_u64().unwrap_or(1) as usize;
+    let cap = cfg["cap"].as_u64().unwrap_or(1) as usize;
+    let nc = cfg["commitments"].as_u64().unwrap_or(1) as usize;
+    let np = cfg["promises"].as_u64().unwrap_or(nc as u64) as usize;
+    let pc_gens = ristretto::create_pedersen_gens_with_extension_degree(ext_degree(x));
+    let params = match catch_unwind(AssertUnwindSafe(|| RangeParameters::init(n, cap, pc_gens))) {
+        Ok(Ok(p)) => p,
+        Ok(Err(e)) => return json!({"params": format!("{:?}", e)}),
+        Err(_) => return json!({"params": "panic"}),
+    };
+    let commitments: Vec<RistrettoPoint> = (0..nc).map(|j| env::free_point(&format!("V_odd_{}", j))).collect();
+    let promises: Vec<Option<u64>> = (0..np).map(|j| if j % 2 == 0 { Some(1) } else { None }).collect();
+    let seed = if cfg["seeded"].as_bool().unwrap_or(false) { Some(env::sym_scalar("seed_odd", "seed")) } else { None };
+    let st = match catch_unwind(AssertUnwindSafe(|| RangeStatement::init(params, commitments, promises, seed))) {
+        Ok(Ok(s)) => s,
+        Ok(Err(e)) => return json!({"params": "ok", "statement": format!("{:?}", e)}),
+        Err(_) => return json!({"params": "ok", "statement": "panic"}),
+    };
+    let full = n * nc.max(1);
+    let rounds = (usize::BITS - 1 - full.leading_zeros()) as usize;
+    let rounds = rounds.max(1);
+    let mut bytes = vec![x as u8];
+    for e in 0..(x + 5 + 2 * rounds) {
+        let is_point = !matches!(role(x, e).0, "d1" | "r1" | "s1");
+        let (b, _) = env::new_elem(is_point, &format!("po_{}", e));
+        bytes.extend_from_slice(&b);
+    }
+    let proof = match RistrettoRangeProof::from_bytes(&bytes) {
+        Ok(p) => p,
+        Err(e) => return json!({"params":"ok","statement":"ok","decode": format!("{:?}", e)}),
+    };
+    let verify_out = run_verify(cfg, &[Transcript::new(b"symx context")], &[st], &[proof]);
+    json!({"params":"ok","statement":"ok","verify": verify_out})
+}
+
+/// constructors driven directly (C17): cfg: fn + integer arguments; returns "ok" | {"err":..} | "panic" and, on ok, the stored fields
+pub fn run_ctor(cfg: &Value) -> Value {
+    use tari_bulletproofs_plus::{commitment_opening::CommitmentOpening, extended_mask::ExtendedMask, range_witness::RangeWitness};
+    let u = |k: &str| cfg[k].as_u64().unwrap_or(0) as usize;
+    let f = cfg["fn"].as_str().unwrap_or("");
+    let r = catch_unwind(AssertUnwindSafe(|| -> Value {
+        match f {
+            "ext_u8" => match ExtensionDegree::try_from(u("v") as u8) {
+                Ok(d) => json!({"ok": d as u8}),
+                Err(e) => json!({"err": format!("{:?}", e)}),
+            },
+            "ext_usize" => match ExtensionDegree::try_from(u("v")) {
+                Ok(d) => json!({"ok": d as u8}),
+                Err(e) => json!({"err": format!("{:?}", e)}),
+            },
+            "params" => {
+                let pc = ristretto::create_pedersen_gens_with_extension_degree(ext_degree(cfg["x"].as_u64().unwrap_or(1) as usize));
+                match RangeParameters::init(u("bit_length"), u("cap"), pc) {
+                    Ok(p) => json!({"ok": {"bit_length": p.bit_length(), "cap": p.max_aggregation_factor(), "x": p.extension_degree() as u8}}),
+                    Err(e) => json!({"err": format!("{:?}", e)}),
+                }
+            },
+            "statement" => {
+                let pc = ristretto::create_pedersen_gens_with_extension_degree(ext_degree(1));
+                let params = RangeParameters::init(u("bit_length").max(1), u("cap"), pc).expect("params");
+                let commitments: Vec<RistrettoPoint> = (0..u("commitments")).map(|j| env::free_point(&format!("Vc_{}", j))).collect();
+                let promises: Vec<Option<u64>> = (0..u("promises")).map(|j| if j % 2 == 0 { Some(j as u64) } else { None }).collect();
+                let seed = if cfg["seeded"].as_bool().unwrap_or(false) { Some(env::sym_scalar("seed_c", "seed")) } else { None };
+                match RangeStatement::init(params, commitments.clone(), promises.clone(), seed) {
+                    Ok(s) => json!({"ok": {"commitments": s.commitments.len(), "promises_equal": s.minimum_value_promises == promises,
+                        "commitments_equal": s.commitments == commitments, "compressed": s.commitments_compressed.len(), "seed": s.seed_nonce.is_some()}}),
+                    Err(e) => json!({"err": format!("{:?}", e)}),
+                }
+            },
+            "witness" => {
+                let counts: Vec<usize> = cfg["blindings"].as_array().unwrap().iter().map(|v| v.as_u64().unwrap() as usize).collect();
+                let openings: Vec<CommitmentOpening> = counts
+                    .iter()
+                    .enumerate()
+                    .map(|(j, c)| CommitmentOpening::new(j as u64 + 1, (0..*c).map(|k| env::sym_scalar(&format!("rw_{}_{}", j, k), "blinding")).collect()))
+                    .collect();
+                let rl: Vec<Value> = openings.iter().map(|o| match o.r_len() {
+                    Ok(l) => json!(l),
+                    Err(_) => json!("err"),
+                }).collect();
+                match RangeWitness::init(openings) {
+                    Ok(w) => json!({"ok": {"openings": w.openings.len(), "degree": w.extension_degree as u8}, "r_len": rl}),
+                    Err(e) => json!({"err": format!("{:?}", e), "r_len": rl}),
+                }
+            },
+            "mask" => {
+                let d = match ExtensionDegree::try_from(u("degree")) {
+                    Ok(d) => d,
+                    Err(_) => return json!({"skip": "degree"}),
+                };
+                let b: Vec<Scalar> = (0..u("len")).map(|k| env::sym_scalar(&format!("mk_{}", k), "blinding")).collect();
+                match ExtendedMask::assign(d, b.clone()) {
+                    Ok(m) => json!({"ok": {"len": m.blindings().map(|v| v.len()).unwrap_or(0), "equal": m.blindings().map(|v| v == b).unwrap_or(false)}}),
+                    Err(e) => json!({"err": format!("{:?}", e)}),
+                }
+            },
+            "commit" => {
+                let pc = ristretto::create_pedersen_gens_with_extension_degree(ext_degree(u("degree")));
+                let b: Vec<Scalar> = (0..u("len")).map(|k| env::sym_scalar(&format!("ck_{}", k), "blinding")).collect();
+                match pc.commit(&Scalar::from(7u64), &b) {
+                    Ok(_) => json!({"ok": {}}),
+                    Err(e) => json!({"err": format!("{:?}", e)}),
+                }
+            },
+            _ => json!({"error": "unknown ctor"}),
+        }
+    }));
+    match r {
+        Ok(v) => v,
+        Err(_) => json!("panic"),
+    }
+}
+
 /// byte codec (C15/C16): cfg: tag (absent = empty buffer), elems (count of 32-byte symbolic elements),
 /// trailing (0..31 literal bytes), noncanonical: [element indices forced non-canonical]
 pub fn run_codec(cfg: &Value) -> Value {
